@@ -519,11 +519,12 @@ func (s *Snapshotter) compact() error {
 	// Flush the existing snapshot, ignoring errors since we will
 	// delete it momentarily.
 	_ = s.buffered.Flush()
-	s.buffered = nil
 
-	// Close the file handle to the old snapshot
+	// Close the file handle to the old snapshot. The closed handles stay in
+	// place until the new ones are installed below: if removing, renaming or
+	// reopening fails, later writes through them return an error, which makes
+	// tryAppend retry the compaction, instead of dereferencing a nil handle.
 	s.fh.Close()
-	s.fh = nil
 
 	// Delete the old file
 	if err := os.Remove(s.path); err != nil {
